@@ -423,7 +423,7 @@ P('C17', claimed=True, level='other', contracts=['base_netaddr_bind', 'synth_nod
   unreached=['what a real server does with the commands'])
 
 P('C18', claimed=True, level='other',
-  contracts=['base_osclib_parse', 'base_responders', 'base_sysactions', 'base_notifications'], drivers=['vf.drivers.C18'],
+  contracts=['base_osclib_parse', 'base_responders', 'base_sysactions', 'base_notifications', 'base_oscrecv'], drivers=['vf.drivers.C18'],
   level_text=('Discharged: the message decoder OscMessage._parse_datagram (address read at 0, tag string where it ended, and '
               'for EVERY tag character the decoder of that type called once at the current position, the position moved to '
               'where it says, the value appended to the innermost open list; T/F, array brackets with a ghost depth, unknown '
@@ -446,7 +446,9 @@ P('C18', claimed=True, level='other',
               'StartUp.defer, ServerAction.run (the server\'s group, then \'default\' for the default server, then \'all\'; each '
               'from a snapshot, each action once with (server, *args, **kwargs)) and add / remove / remove_server, '
               'NotificationCenter.notify (every (listener, action) of a snapshot of the table of (obj, msg), once, with ITS '
-              'listener), register, unregister (exactly the named level) and registration_exists. Pattern matching itself is '
+              'listener), register, unregister (exactly the named level) and registration_exists; the receive entry point '
+              '_handle_request (nothing is raised into the receiver; parsed once; every message of the packet dispatched once in order '
+              'with its own time, address and parameters; a datagram that does not parse dispatches nothing). Pattern matching itself is '
               'compared with an independent '
               'OSC 1.0 matcher for ALL pattern/address pairs up to length 4/4 (exhaustive small scope); '
               'dispatch and registries are checked on all histories of length <= 4 against a reference '
